@@ -225,7 +225,7 @@ def run_comp(item, res, I, vs, s, rng):
             if not ok:
                 return
             for k in range(ngroups):
-                check_profile_row(ob, rows[k], N, w, lambda i, k=k: z3.ToReal(count(member(k, v) for v in vs[i:i + w])) / w, lab + " group %d" % k, cex)
+                check_profile_row(ob, rows[k], N, w, lambda i, k=k: [z3.If(member(k, v), z3.RealVal(1) / w, z3.RealVal(0)) for v in vs[i:i + w]], lab + " group %d" % k, cex)
             if len(res["samples"]) < 2:
                 res["samples"].append(dict(item=item["name"], w=w, witness=cex(m), obligation=lab + ": density rows == per-window group fractions"))
         explore(I, res, thunk, on_return, cex, label="composition w=%d N=%d" % (w, N), on_raise=on_raise)
